@@ -26,21 +26,21 @@ from common import coq_list, coq_str, coq_eval_shards
 from props.c02 import DocGen, coq_results, parse_strings, parse_nums, nstr, with_decls, pick_encoding
 
 PRE = "From S2T Require Import Lib.PyStr C02.Lib C02.Xml C02.Doc C02.OdtModel C02.OdfShared.\n"
-EXTRA_NS = (' xmlns:svg="urn:oasis:names:tc:opendocument:xmlns:svg-compatible:1.0"'
-            ' xmlns:presentation="urn:oasis:names:tc:opendocument:xmlns:presentation:1.0"'
+EXTRA_NS = (''
             ' xmlns:xlink="http://www.w3.org/1999/xlink"')
 PROPS_EXPECTED = ["C02_odf_element_text_is_odt_walk", "C02_odf_paragraph_text_transfers", "C02_odf_paragraph_separated"]
 
 
-def pkg(mimetype: str, body: str, decls: str, enc: str = "ascii-refs") -> bytes:
+def pkg(mimetype: str, body: str, decls: str, enc: str = "ascii-refs", enc_meta: bool = False) -> bytes:
     from props.c02 import encode_part
     b = io.BytesIO()
     with zipfile.ZipFile(b, "w", zipfile.ZIP_DEFLATED) as z:
         z.writestr("mimetype", mimetype)
-        z.writestr("META-INF/manifest.xml",
-                   '<?xml version="1.0"?><manifest:manifest xmlns:manifest="urn:oasis:names:tc:opendocument:xmlns:manifest:1.0">'
-                   f'<manifest:file-entry manifest:full-path="/" manifest:media-type="{mimetype}"/>'
-                   '<manifest:file-entry manifest:full-path="content.xml" manifest:media-type="text/xml"/></manifest:manifest>')
+        manifest = ('<manifest:manifest xmlns:manifest="urn:oasis:names:tc:opendocument:xmlns:manifest:1.0">'
+                    f'<manifest:file-entry manifest:full-path="/" manifest:media-type="{mimetype}"/>'
+                    '<manifest:file-entry manifest:full-path="content.xml" manifest:media-type="text/xml"/></manifest:manifest>')
+        # non-content part: the manifest in the same encoding for every second package
+        z.writestr("META-INF/manifest.xml", encode_part(manifest, enc if enc_meta else "ascii-refs"))
         z.writestr("content.xml", encode_part(f'<office:document-content{decls}{EXTRA_NS}>'
                                               f'<office:body>{body}</office:body></office:document-content>', enc))
     return b.getvalue()
@@ -91,7 +91,7 @@ def run_part(ctx):
                        same, f"skip={sorted(m._TEXT_SKIP_TAGS)}")
 
     rng = ctx.rng
-    n = ctx.n(150, 1500)
+    n = ctx.n(100, 1500)
     terms = []
     for _ in range(n):
         g = DocGen(rng, set(), 3, latin=rng.random() < 0.4)
@@ -137,7 +137,7 @@ def run_part(ctx):
         enc_s = pick_encoding(rng)
         ctx.count("ods-encoding:" + enc_s)
         ods = pkg("application/vnd.oasis.opendocument.spreadsheet",
-                  f'<office:spreadsheet><table:table table:name="SheetA">{rows_xml}</table:table></office:spreadsheet>', decls, enc_s)
+                  f'<office:spreadsheet><table:table table:name="SheetA">{rows_xml}</table:table></office:spreadsheet>', decls, enc_s, rng.random() < 0.5)
         want = [w for p in paras for w in p[1]]
         try:
             got = next(mods["ods"].read_ods(io.BytesIO(ods))).get_full_text()
@@ -188,7 +188,7 @@ def run_part(ctx):
         enc = pick_encoding(rng)
         ctx.count("odp-encoding:" + enc)
         odp = pkg("application/vnd.oasis.opendocument.presentation",
-                  f'<office:presentation><draw:page draw:name="p1">{frames}{notes_xml}</draw:page></office:presentation>', decls, enc)
+                  f'<office:presentation><draw:page draw:name="p1">{frames}{notes_xml}</draw:page></office:presentation>', decls, enc, rng.random() < 0.5)
         want_b = [w for p in boxes for w in p[1]]
         ctx.case(("odp", tuple(terms[i] for i in gi), notes_mode, grouped, enc), len(want_b) >= 3,
                  "odp:text-boxes+table" + ("+grouped" if grouped else "") + ("+notes-" + notes_mode if notes_mode != "none" else ""))
